@@ -193,7 +193,27 @@ def r2(ctx):
              key='per-fragment-exception-containment', what='get_consensus: exception of one fragment aborts the tally of the later fragments')
     # each fragment contributes through pick_best_base_call of its two mates
     g = ctx.fn(FRAGMENT, 'Fragment.get_consensus')
-    ok = 'pick_best_base_call(r1_consensus.get(ref_pos), r2_consensus.get(ref_pos))' in src(g) and 'set(r1_consensus.keys()).union(set(r2_consensus.keys()))' in src(g)
+    # one call per position covered by either mate: value = pick_best_base_call(A.get(k), B.get(k)) for k over keys(A) | keys(B), where (A, B) are
+    # the two dictionaries returned by get_consensus_dictionaries (unpacked, or indexed [0] / [1])
+    ok = False
+    picks = [c for c in walk_no_nested(g) if isinstance(c, ast.Call) and last_name(dotted(c.func) or '') == 'pick_best_base_call' and len(c.args) == 2]
+    srcs = [s_ for s_ in walk_no_nested(g) if isinstance(s_, ast.Assign) and isinstance(s_.value, ast.Call) and last_name(dotted(s_.value.func) or '') == 'get_consensus_dictionaries']
+    if len(picks) == 1 and len(srcs) == 1:
+        a1, a2 = picks[0].args
+        tg = srcs[0].targets[0]
+        if isinstance(tg, ast.Tuple) and len(tg.elts) == 2:
+            want = [src(tg.elts[0]), src(tg.elts[1])]
+        else:
+            want = [f'{src(tg)}[0]', f'{src(tg)}[1]']
+        def base_and_key(a_):
+            if isinstance(a_, ast.Call) and isinstance(a_.func, ast.Attribute) and a_.func.attr == 'get' and len(a_.args) == 1:
+                return src(a_.func.value), src(a_.args[0])
+            if isinstance(a_, ast.Subscript):
+                return None, None      # A[k] raises for a position covered by one mate only
+            return None, None
+        (b1, k1), (b2, k2) = base_and_key(a1), base_and_key(a2)
+        whole = src(g)
+        ok = [b1, b2] == want and k1 == k2 and k1 is not None and f'{b1}.keys()' in whole and f'{b2}.keys()' in whole and ('.union(' in whole or ' | ' in whole)
     ctx.emit('C13-R2', ok, FRAGMENT, g, 'a fragment yields one call per covered position: the better of its two mates', key='one-call-per-fragment')
 
 
